@@ -114,12 +114,16 @@ pub struct DkgRefresh<C: Suite> {
     pub r2_pkg: BTreeMap<Id<C>, BTreeMap<Id<C>, round2::Package<C>>>,
 }
 
+pub fn refresh_part1_tape(seed: u64, k: usize) -> Tape {
+    Tape::random(seed ^ (0x4ef_0000 + k as u64).wrapping_mul(0x9e37_79b9))
+}
+
 pub fn dkg_refresh_rounds<C: Suite>(remaining: &[Id<C>], t: u16, seed: u64, key: &str) -> Result<DkgRefresh<C>, Failure> {
     let m = remaining.len() as u16;
     let mut r1_secret = BTreeMap::new();
     let mut r1_pkg = BTreeMap::new();
     for (k, id) in remaining.iter().enumerate() {
-        let tape = Tape::random(seed ^ (0x4ef_0000 + k as u64).wrapping_mul(0x9e37_79b9));
+        let tape = refresh_part1_tape(seed, k);
         match refresh::refresh_dkg_part1::<C, _>(*id, m, t, tape) {
             Ok((s, p)) => {
                 r1_secret.insert(*id, s);
